@@ -95,7 +95,16 @@ func (c *Ctx) verdictIf(cond bool, prop, rule, key, pos, okMsg, badMsg string) {
 func (c *Ctx) finishFloors() {
 	for _, k := range c.order {
 		r := c.Rules[k]
-		if r.Found < r.Floor {
+		// The floor guards against vacuity (the rule has lost sight of the code), not against a tidier code
+		// base: de-duplicating refactors legitimately shrink the number of sites a rule enumerates.  Half the
+		// confirmed count (at least one instance) must still be seen.
+		need := r.Floor
+		if need > 3 {
+			need = need / 2
+		} else if need > 1 {
+			need = 1
+		}
+		if r.Found < need {
 			c.Obs = append(c.Obs, &Obligation{Prop: r.Prop, Rule: r.Rule, Key: "floor", Verdict: Undecided,
 				Msg: fmt.Sprintf("rule matched %d instance(s), fewer than the %d confirmed by hand on the pinned tree: the rule no longer sees the code it is about (anchor renamed/removed or idiom changed)", r.Found, r.Floor)})
 		}
